@@ -544,7 +544,12 @@ def main(argv: list[str]) -> int:
     framing_samples: list[Any] = []
     distinct_seg: set[tuple[int, ...]] = set()
     for cfg, lens in ((("Gen_Ipc_B.cfg", [2, 1]),) if tier == "quick" else (("Gen_Ipc_B.cfg", [2, 1]), ("Gen_Ipc_A.cfg", [1, 3, 2]))):
-        g = tlc("MC_Ipc", cfg, workers=1, coverage=False, timeout=3000, heap="8g")
+        if cfg == "Gen_Ipc_A.cfg":
+            # 18-byte stream: the behaviours (send interleavings x segmentations) are too many to enumerate with a history
+            # variable; sample them (MC_Ipc_A.cfg above covers the same instance exhaustively without the history)
+            g = tlc("MC_Ipc", cfg, workers=1, coverage=False, timeout=3000, heap="8g", simulate="num=40000", depth=80, seed=seed + 1)
+        else:
+            g = tlc("MC_Ipc", cfg, workers=1, coverage=False, timeout=3000, heap="8g")
         if not g.ok:
             raise MachineryError("Gen Ipc: %s %s" % (g.violated, g.error))
         hists = g.json_lines("HIST")
